@@ -167,6 +167,8 @@ def write_replay(prop: str, seed: int, payload: dict) -> pathlib.Path:
 
 def write_evidence(prop: str, tier_: str, seed: int, level: str, coverage: dict, wall_s: float, violations: int,
                    assumptions: list[str], extra: typing.Optional[dict] = None) -> None:
+    if os.environ.get('VERIF_NO_EVIDENCE'):
+        return
     EVIDENCE.mkdir(exist_ok=True)
     doc = {'property_id': prop, 'tier': tier_, 'seed': seed, 'level': level, 'coverage': coverage,
            'assumptions': assumptions, 'wall_s': round(wall_s, 2), 'violations': violations}
@@ -200,3 +202,17 @@ def ddmin(items: list, fails: typing.Callable[[list], bool], max_tests: int = 20
                 break
             n = min(len(items), n * 2)
     return items
+
+
+def emit_digests(results: list[dict]) -> None:
+    """For the determinism self-test: one line per seed with the digest of its event log."""
+    if os.environ.get('VERIF_DIGESTS'):
+        for res in results:
+            print(f'DIGEST {res["seed"]} {res.get("digest")}')
+
+
+def clean_replays(prop: str) -> None:
+    """Drop replay files of earlier runs of this property (they belong to another tree state)."""
+    if REPLAYS.exists() and not os.environ.get('VERIF_NO_EVIDENCE'):
+        for path in REPLAYS.glob(f'{prop}-*.json'):
+            path.unlink()
